@@ -217,7 +217,7 @@ def gen_recognition(seed, big):
     rnd = random.Random(seed + 7)
     out = []
     for ds, de in DELIMS + [('aab', 'bba'), ('// --', '-- //'), ('「「', '」」'), ('/* «', '» */'), ('«<', '>»'), ('é<', '>é'), ('<%#', '-%>'), ('@@', '@@'), ('#', '##'), ('##', '#'), ('|', '|')]:
-        atoms = sorted(set(list(ds) + list(de) + [' ', 'x', 'あ', ds, de, ds + 'r' + de, ds + de]))
+        atoms = sorted(set(list(ds) + list(de) + [' ', 'x', 'あ', '\\', '\n', '"', ds, de, ds + 'r' + de, ds + de]))
         for _ in range(500 if big else 150):
             src = ''.join(rnd.choice(atoms) for _ in range(rnd.randint(0, 8)))
             want = ref_tokenize(src, ds, de)
@@ -268,6 +268,12 @@ def gen_expiry(seed, big):
         exp = 'A\nC\n' if ready else src
         out.append((dict(cfg(current=cur), mode='clean', source=src, ds='<', de='>'),
                     (lambda e, t, c: lambda r: None if r.get('ok') and r.get('output') == e else f'expiry decision wrong for a far-away date to={t} now={c}: ' + json.dumps(r, ensure_ascii=False)[:160])(exp, to, cur)))
+    # spellings chrono's "%Y-%m-%d %H:%M:%S" accepts besides the canonical one (fields without zero padding): a date is a
+    # date however it is spelled
+    for to in ('2020-1-5 9:00:00', '2020-1-05 09:0:0', '2020-01-5 9:5:7'):
+        src = f"A\n<{TL} to='{to}'>\nB\n</{TL}>\nC\n"
+        out.append((dict(cfg(), mode='clean', source=src, ds='<', de='>'),
+                    (lambda t: lambda r: None if r.get('ok') and r.get('output') == 'A\nC\n' else f'an expired element whose date is written without zero padding ({t}) is still expired: ' + json.dumps(r, ensure_ascii=False)[:160])(to)))
     # years outside chrono's range or spelled with a sign are malformed or never reached: not ready, and no panic at any offset
     for to in ('-262143-01-01 00:00:00', '+262142-12-31 23:59:59', '262142-12-31 23:59:59', '-0001-01-01 00:00:00', '10000-01-01 00:00:00'):
         for o in ('+09:00', '-01:00', '+14:00', '-12:00'):
@@ -287,7 +293,7 @@ def gen_expiry(seed, big):
         out.append((dict(cfg(), mode='clean', source=src, ds='<', de='>'), (lambda s: lambda r: None if r.get('ok') and r.get('output') == s else 'missing/valueless `to` made the element ready')(src)))
     # the FIRST attribute named `to` decides (a later duplicate is ignored), also when the tag is spread over several lines
     for attrs, ready in ((f"to to='{PAST}'", False), (f"to=2000-01-01 to='{PAST}'", False), (f"to='{FUTURE}' to='{PAST}'", False),
-                         (f"to='{PAST}' to='{FUTURE}'", True), (f"to=''\n  to='{PAST}'", False), (f"to\n  to='{PAST}'", False), (f"x='to' to='{PAST}'", True)):
+                         (f"to='{PAST}' to='{FUTURE}'", True), (f"TO='{PAST}'", False), (f"To='{PAST}'", False), (f"TO='{FUTURE}' to='{PAST}'", True), (f"tO='{PAST}' x='1'", False), (f"to=''\n  to='{PAST}'", False), (f"to\n  to='{PAST}'", False), (f"x='to' to='{PAST}'", True)):
         src = f"A\n<{TL} {attrs}>\nB\n</{TL}>\nC\n"
         exp = 'A\nC\n' if ready else src
         out.append((dict(cfg(), mode='clean', source=src, ds='<', de='>'), (lambda e, a: lambda r: None if r.get('ok') and r.get('output') == e else f'duplicate `to` attributes [{a}]: the first one must decide: ' + json.dumps(r, ensure_ascii=False)[:160])(exp, attrs)))
@@ -313,6 +319,8 @@ def gen_marker(seed, big):
         # target names are compared as whole strings: padding counts on either side
         ("name='f1'", ['f1 '], False), ("name='f1'", [' f1'], False), ("name=' f1'", [' f1'], True), ("name='f1 '", ['f1'], False),
         ("name=''", [' '], False), ("name=' '", [' '], True), ("name='f1'", ['f1\n'], False), ("name='f1'", ['\tf1'], False),
+        # attribute names are case-sensitive words
+        ("NAME='f1'", ['f1'], False), ("Name='f1'", ['f1'], False), ("name='f1' SKIP", ['f1'], True), ("name='f1' Skip", ['f1'], True), ("NAME='zz' name='f1'", ['f1'], True),
         # a name is one string, not a list
         ("name='f1,f2'", ['f1'], False), ("name='f1,f2'", ['f1', 'f2'], False), ("name='f1,f2'", ['f1,f2'], True), ("name='a,'", ['', 'b'], False),
         ("name=','", [''], False), ("name='f1 f2'", ['f1'], False), ("name='f1;f2'", ['f2'], False), ("name='f1|f2'", ['f1'], False),
@@ -1143,13 +1151,36 @@ def gen_totality_extreme_dates(seed, big):
     """C01: no `to` value, however extreme, and no offset makes clean / list / list_all panic"""
     out = []
     tos = ['-262143-01-01 00:00:00', '+262142-12-31 23:59:59', '262142-12-31 23:59:59', '-0001-01-01 00:00:00', '0000-01-01 00:00:00', '10000-01-01 00:00:00',
-           '1600-01-01 00:00:00', '2299-12-31 23:59:59', '9999-12-31 23:59:59', '0001-01-01 00:00:00', '2024-02-30 00:00:00', '2024-12-31 23:59:60']
+           '1600-01-01 00:00:00', '2299-12-31 23:59:59', '9999-12-31 23:59:59', '0001-01-01 00:00:00', '2024-02-30 00:00:00', '2024-12-31 23:59:60',
+           '2020-01-01\u300000:00:00', '2020-01-0\uff11 00:00:00', 'next Mont\u00e1g', '\u00e9\u00e9\u00e9\u00e9\u00e9\u00e9', '\uff12\uff10\uff12\uff10-01-01 00:00:00', '2020-01-01T00:00:00',
+           '2020-01-01 00:00:0\u00e9', '\U0001f600', '2020-01-01 \U0001f55b', 'x' * 9 + '\u3042', 'x' * 10 + '\u3042', 'x' * 17 + '\u3042', 'x' * 18 + '\u3042']
     for to in tos:
         for o in ('+09:00', '-01:00', '+14:00', '-12:00', '+00:00'):
             src = f"A\n<{TL} to='{to}'>\nB\n</{TL}>\nC\n"
             for mode in ('clean', 'list', 'list_all_json'):
                 out.append((dict(cfg(offset=o), mode=mode, source=src, ds='<', de='>'),
                             (lambda t, oo, m: lambda r: None if r.get('ok') else f'{m} panicked on to={t!r} offset {oo}: ' + str(r.get('panic'))[:160])(to, o, mode)))
+    return out
+
+
+def gen_case_sensitive(seed, big):
+    """C02/C04/C06/C10: tag names are compared as they are written - `TIME-LIMITED` is not `time-limited`, `</Marker>`
+    does not close `<marker>`: an upper-case opener is an unregistered tag, an upper-case closer is a stray closing tag
+    (its opener stays unclosed, i.e. text). Nothing is ready in these documents: output == input."""
+    out = []
+    up = lambda t: t.upper()
+    cap = lambda t: t[0].upper() + t[1:]
+    for ds, de in (('<', '>'), ('<!--', '-->')):
+        pad = '' if ds == '<' else ' '
+        docs = []
+        for f in (up, cap):
+            docs += [f"keep0\n{ds}{pad}{TL} to='{PAST}'{pad}{de}\nkeep1\n{ds}{pad}/{f(TL)}{pad}{de}\nkeep2\n",
+                     f"keep0\n{ds}{pad}{f(TL)} to='{PAST}'{pad}{de}\nkeep1\n{ds}{pad}/{TL}{pad}{de}\nkeep2\n",
+                     f"keep0\n{ds}{pad}{f(TL)} to='{PAST}'{pad}{de}\nkeep1\n{ds}{pad}/{f(TL)}{pad}{de}\nkeep2\n",
+                     f"a {ds}{pad}{RM} name='f1'{pad}{de}B{ds}{pad}/{f(RM)}{pad}{de} c\n"]
+        for src in docs:
+            out.append((dict(cfg(), mode='clean', source=src, ds=ds, de=de),
+                        (lambda s_: lambda r: None if r.get('ok') and r.get('output') == s_ else 'tag names are case-sensitive: nothing is ready here, yet the output differs from the input: ' + json.dumps(r, ensure_ascii=False)[:200])(src)))
     return out
 
 
@@ -1231,7 +1262,7 @@ def gen_list_regions(seed, big):
         final_nl = rnd.random() < 0.6
         for bi in range(nblocks):
             for _ in range(rnd.randint(0, 2)):
-                lines.append(rnd.choice(['a();', '  b = 1; // é', '\tc', 'これ']))
+                lines.append(rnd.choice(['a();', '  b = 1; // é', '\tc', 'これ', '\x0bold_style();', '\x0c', 'x\x0b\x0b', '\x0b']))
             ind = rnd.choice(['', '  ', '\t'])
             kind = rnd.choice(['block', 'inline', 'inline_multi', 'pending', 'unwrap'])
             if kind == 'unwrap':
@@ -1358,7 +1389,7 @@ def gen_pairing(seed, big):
     if not big:
         rnd.shuffle(seqs2); seqs2 = seqs2[:1200]
     seqs += seqs2
-    long_alpha = alphabet + ['<a x="1">', '<c>', '</c>', '<//a>', '</a x>', '</b y="1">', '<ab>', '</ab>', '<ba>', '</ba>', '<aa>', '</aa>']
+    long_alpha = alphabet + ['<a x="1">', '<c>', '</c>', '<//a>', '</a x>', '</b y="1">', '<A>', '</A>', '</B>', '<ab>', '</ab>', '<ba>', '</ba>', '<aa>', '</aa>']
     for _ in range(600 if big else 200):
         n = rnd.randint(6, 14)
         tup = []
@@ -1461,8 +1492,8 @@ def _back_same(t, d):
 
 
 GENERATORS = {
-    'C01': [gen_totality], 'C04': [gen_identity, gen_identity_unwrappable, gen_identity_unrecognised, gen_identity_unexpired, gen_identity_decisions, gen_tag_whitespace], 'C07': [gen_partition], 'C08': [gen_recognition, gen_recognition_entry], 'C05': [gen_expiry, gen_env_independent_expiry], 'C06': [gen_marker, gen_tag_whitespace],
-    'C09': [gen_grammar, gen_opaque_decisions], 'C10': [gen_pairing], 'C02': [gen_blocks, gen_inline, gen_nested_text_survives, gen_unwrap_crlf_text, gen_odd_whitespace_lines, gen_tag_whitespace, gen_large_clean], 'C03': [gen_blocks, gen_inline, gen_nested_text_survives, gen_unwrap_crlf_text, gen_closer_attrs, gen_large_clean, gen_doubled_delims], 'C11': [gen_blocks, gen_unwrap_wrappers, gen_unwrap_four_lines, gen_identity_unwrappable, gen_unwrap_crlf_text, gen_unwrap_comments], 'C17': [gen_list_all],
+    'C01': [gen_totality], 'C04': [gen_identity, gen_identity_unwrappable, gen_identity_unrecognised, gen_identity_unexpired, gen_identity_decisions, gen_tag_whitespace, gen_case_sensitive], 'C07': [gen_partition], 'C08': [gen_recognition, gen_recognition_entry], 'C05': [gen_expiry, gen_env_independent_expiry], 'C06': [gen_marker, gen_tag_whitespace, gen_case_sensitive],
+    'C09': [gen_grammar, gen_opaque_decisions], 'C10': [gen_pairing], 'C02': [gen_blocks, gen_inline, gen_nested_text_survives, gen_unwrap_crlf_text, gen_odd_whitespace_lines, gen_tag_whitespace, gen_large_clean, gen_case_sensitive], 'C03': [gen_blocks, gen_inline, gen_nested_text_survives, gen_unwrap_crlf_text, gen_closer_attrs, gen_large_clean, gen_doubled_delims], 'C11': [gen_blocks, gen_unwrap_wrappers, gen_unwrap_four_lines, gen_identity_unwrappable, gen_unwrap_crlf_text, gen_unwrap_comments], 'C17': [gen_list_all],
     'C12': [gen_dedent, gen_dedent_nested, gen_dedent_crlf], 'C13': [gen_blanklines, gen_lines_intact, gen_odd_whitespace_lines], 'C14': [gen_inline, gen_dedent_nested, gen_unwrap_lines_intact, gen_unwrap_lines_intact_crlf], 'C15': [gen_list_regions, gen_env_independent_list, gen_large_list],
 }
 
